@@ -254,3 +254,31 @@ func RecvNameOf(fn *types.Func) string {
 	}
 	return ""
 }
+
+// PackageNames lists (import path → package name) for the packages matched by the patterns and
+// everything they depend on, without parsing or type-checking them.
+func PackageNames(repo string, patterns ...string) (map[string]string, error) {
+	sumPath, modPath := repo+"/go.sum", repo+"/go.mod"
+	sum0, _ := os.ReadFile(sumPath)
+	mod0, _ := os.ReadFile(modPath)
+	defer func() {
+		if b, err := os.ReadFile(sumPath); err == nil && sum0 != nil && string(b) != string(sum0) {
+			os.WriteFile(sumPath, sum0, 0o644)
+		}
+		if b, err := os.ReadFile(modPath); err == nil && mod0 != nil && string(b) != string(mod0) {
+			os.WriteFile(modPath, mod0, 0o644)
+		}
+	}()
+	cfg := &packages.Config{Mode: packages.NeedName | packages.NeedImports | packages.NeedDeps, Dir: repo, Env: Env(), Tests: false}
+	pkgs, err := packages.Load(cfg, patterns...)
+	if err != nil {
+		return nil, err
+	}
+	out := map[string]string{}
+	packages.Visit(pkgs, nil, func(pk *packages.Package) {
+		if pk.Name != "" {
+			out[pk.PkgPath] = pk.Name
+		}
+	})
+	return out, nil
+}
